@@ -706,3 +706,45 @@ func (r *Runner) Skip(name string) bool { return r.skip(name) }
 
 // ReplayOf returns the replay file when the run is a replay.
 func (r *Runner) ReplayOf() *ReplayFile { return r.replay }
+
+// Stress runs n cases generated from hash-derived sources (no shrinking: the
+// outcome of a stress case depends on the OS scheduler, so a failure is reported
+// with the case and seed as they are).  Used for the race-detector runs.
+func Stress[C any](r *Runner, ck Check[C], n int) *SubResult {
+	if r.skip(ck.Name) {
+		return nil
+	}
+	if r.replay != nil {
+		return replayOne(r, &ck)
+	}
+	r.startWatchdog()
+	start := time.Now()
+	seed := subSeed(r.Seed, r.Prop, ck.Name, r.Shard)
+	a := newAccum(ck.Name, "stress", n, seed)
+	for i := 0; i < n; i++ {
+		rec := &Recorder{Inner: &HashSource{Seed: seed + uint64(i)*7919}}
+		c := ck.Gen(rec)
+		desc, err := json.Marshal(c)
+		if err != nil {
+			panic(HarnessError{"case not serialisable: " + err.Error()})
+		}
+		res := execCase(r, &ck, c, desc, rec)
+		if res.Violation != nil {
+			rf := &ReplayFile{Property: r.Prop, Check: ck.Name, Signature: res.Violation.Signature,
+				Message: res.Violation.Message, Choices: append([]uint64(nil), rec.Choices...), Case: desc,
+				Note: "stress case: the outcome depends on the OS scheduler; not shrunk"}
+			if k := r.matchKnown(res.Violation.Signature); k != nil {
+				r.recordKnown(a, k, rf)
+				res.Violation = nil
+			} else {
+				a.sub.Violation = rf
+				break
+			}
+		}
+		a.add(desc, rec.Choices, res)
+	}
+	s := a.finish(start)
+	r.file.Subs = append(r.file.Subs, s)
+	r.flush()
+	return s
+}
